@@ -63,6 +63,13 @@ Next == x' = x
             jobs.append({"fe": rnd.choice(corpus.FES), "rate": 44100, "bps": rnd.choice([8, 16, 24, 32]), "channels": ch,
                          "opts": {"block_size": bs, "max_lpc": rnd.choice([-1, 8]), "max_po": rnd.choice([0, 5, 15]), "padding": -1, "seektable": "none"},
                          "pcm": {"signal": sig, "seed": rnd.randint(1, 10 ** 6), "frames": length}, "tag": "constant"})
+    # a constant block after a history of incompressible blocks (the choice for a block must not depend on the blocks before it)
+    for bs in (16, 64, 256):
+        for k in (1, 3, 8, 9, 10, 13, 17, 40):
+            for ch in (1, 2):
+                jobs.append({"fe": rnd.choice(corpus.FES), "rate": 44100, "bps": rnd.choice([8, 16, 24]), "channels": ch,
+                             "opts": {"block_size": bs, "max_lpc": rnd.choice([-1, 8]), "max_po": rnd.choice([0, 5]), "padding": -1, "seektable": "none"},
+                             "pcm": {"signal": "ntc:%d" % (k * bs), "seed": rnd.randint(1, 10 ** 6), "frames": (k + 6) * bs}, "tag": "history"})
     parts = [jobs[i::8] for i in range(8)]
 
     def drive(ip):
